@@ -40,6 +40,11 @@ def gen_w(rng, nmax=10000):
     if not np.any(w > 0):
         w[0] = 1.0
     scale = 10.0 ** rng.uniform(-30, 30) if kind != "huge-range" else 1.0
+    r = rng.random()
+    if kind not in ("huge-range",) and r < 0.06:
+        scale = 10.0 ** rng.uniform(-250, -160)        # squares of the raw weights underflow
+    elif kind not in ("huge-range",) and r < 0.12:
+        scale = 10.0 ** rng.uniform(150, 250)          # squares of the raw weights overflow
     return w * scale, kind
 
 
@@ -95,6 +100,11 @@ def check_trim(rng, w, kind):
         s_out, w_out = trim_weights(samples, w.copy(), ess=frac, bins=bins)
     except Exception as e:
         return [(f"trim-exception-{type(e).__name__}", f"trim_weights raised {e} (n={n}, ess={frac}, bins={bins}, kind={kind})")], frac, bins
+    w_in = w.copy()
+    s2, w2 = trim_weights(samples, w_in, ess=frac, bins=bins)
+    s3, w3 = trim_weights(samples, w_in, ess=frac, bins=bins)      # second call on the array the first call was given
+    if len(w2) != len(w_out) or len(w3) != len(w_out) or not np.allclose(w3, w_out, rtol=1e-12, atol=0):
+        bad.append(("trim-not-repeatable", f"calling trim_weights again on the same array gives {len(w3)} / {len(w2)} samples instead of {len(w_out)}"))
     ids = (s_out if s_out.ndim == 1 else s_out[:, 0]).astype(int)
     if len(ids) != len(w_out) or len(ids) == 0:
         return [("trim-length", f"samples {len(ids)} vs weights {len(w_out)}")], frac, bins
@@ -145,6 +155,17 @@ def check_volume(rng):
             v2 = float(volume_variation(x, w * c))
             if abs(v2 - v) > 1e-9 * max(v, 1e-12):
                 bad.append(("volume-weight-scale", f"rescaling weights by {c}: {v!r} -> {v2!r}"))
+    # weight sums within sqrt(eps) of one (the tolerance other routines use to skip renormalisation), samples far from the origin
+    if w is not None:
+        spread0 = float(np.sqrt(np.trace(cov) / d))
+        xf = x + 1e6 * spread0 * np.sign(rng.standard_normal(d))
+        with np.errstate(all="ignore"):
+            vf = float(volume_variation(xf, w.copy()))
+            for c in (1 + 1e-8, 1 - 1e-8, 1 + 1.4e-8):
+                vc = float(volume_variation(xf, w * c))
+                if abs(vc - vf) > 1e-6 * max(vf, 1e-12):
+                    bad.append(("volume-weight-scale", f"samples at 1e6 spreads from the origin, weights rescaled by {c!r}: {vf!r} -> {vc!r}"))
+                    break
     # affine maps
     cond = 10 ** rng.uniform(0, 6)
     U, _ = np.linalg.qr(rng.standard_normal((d, d)))
